@@ -84,6 +84,8 @@ def body():
                 par.quadrature.regular = order
                 with probes.installed("r2", "dl"):
                     for kind, sp in (("DP1", D1), ("P1", P1), ("DP0", D0)):
+                        if order < 3 and kind != "DP0":
+                            continue          # |x-y|^2 times a linear basis function has degree 3: exact from order 3 on
                         c = rng.randint(-3, 4, sp.global_dof_count).astype(float)
                         loc = np.asarray(sp.map_to_full_grid.dot(c)).reshape(ne, -1)     # element x local coefficients
                         if kind == "DP0":
